@@ -174,6 +174,33 @@ pub fn c17_disjoint<const N: usize, const J: usize>() {
     end(g, panicked);
 }
 
+fn liar_op<const N: usize>(m: &mut Map<Tok, Tok, N>, op: u8, k: u8, mask: u8) {
+    match op {
+        0 => drop(m.insert(Tok::new(k), Tok::new(1))),
+        1 => drop(m.insert_key_value(Tok::new(k), Tok::new(2))),
+        2 => drop(m.checked_insert(Tok::new(k), Tok::new(3))),
+        3 => drop(m.remove(&BKey::free(k))),
+        4 => m.retain(|kk, _| crate::model::keep(mask, kk.key())),
+        5 => { let _ = m.entry(Tok::new(k)).or_insert(Tok::new(4)); }
+        _ => { if let Some(v) = m.get_mut(&BKey::free(k)) { v.set_tag(9); } }
+    }
+}
+
+/// two solver-chosen operations in sequence under adversarial comparisons (each may panic and is caught)
+pub fn c17_two<const N: usize>() {
+    tok::reset();
+    let mut g = liar_map::<N>();
+    let (o1, o2, k1, k2, mask) = (vf::any_u8(), vf::any_u8(), vf::any_u8(), vf::any_u8(), vf::any_u8());
+    vf::assume(o1 < 7 && o2 < 7);
+    let p1 = { let m = &mut g.c; vf::catch(move || liar_op(m, o1, k1, mask)) };
+    sane(&g);
+    let p2 = { let m = &mut g.c; vf::catch(move || liar_op(m, o2, k2, mask)) };
+    if p1 || p2 { vf::reach(1); } else { vf::reach(2); }
+    sane(&g);
+    drop(g);
+    vf::check(tok::balanced(), 302);
+}
+
 /// Set operations and predicates under lying comparisons
 pub fn c17_set<const N: usize, const M: usize>() {
     tok::reset();
@@ -211,6 +238,7 @@ harnesses! {
     c17_disjoint: [1, 2] [2, 2] [3, 2] [2, 3] [3, 3];
     c17_set: [1, 1] [2, 1] [1, 2];
     @deep
+    c17_two: [1] [2] [3];
     c17_insert: [4];
     c17_remove: [4];
     c17_lookup: [4];
